@@ -108,6 +108,50 @@ theorem context_seed_binds (eb : Nat) (c1 c2 : Context) (h1 : c1.Valid) (h2 : c2
   · rw [Nat.mod_eq_of_lt hl1, Nat.mod_eq_of_lt hl2] at hlen; exact hlen
   · rw [Nat.mod_eq_of_lt hn1, Nat.mod_eq_of_lt hn2] at hnc; exact hnc
 
+/-! ### the domain of the theorems is exactly what the constructors accept
+
+`newOk` is the executable model of the constructors' assertions; the correspondence stream compares
+it with the real constructors (`obj ti_new / po_new / ctx_new`: returns or panics) on boundary values
+of every argument.  So `Valid` — the hypothesis of `context_seed_binds` — is neither narrower nor
+wider than "can be constructed". -/
+
+theorem trace_info_constructible_iff_valid (t : TraceInfo) : t.newOk = true ↔ t.Valid := by
+  unfold TraceInfo.newOk TraceInfo.Valid
+  simp only [Bool.and_eq_true, decide_eq_true_eq, beq_iff_eq, Bool.or_eq_true, bne_iff_ne, ne_eq]
+  constructor
+  · rintro ⟨⟨⟨⟨⟨⟨⟨h8, hp⟩, hlt⟩, hm⟩, h0⟩, hw⟩, ha⟩, hr⟩
+    refine ⟨h8, ⟨t.length.log2, hp.symm, ?_⟩, hm, h0, hw, ?_, hr⟩
+    · exact (Nat.log2_lt (by omega)).2 hlt
+    · intro h; rcases ha with ha | ha
+      · exact absurd h ha
+      · exact ha
+  · rintro ⟨h8, ⟨k, hk, hk64⟩, hm, h0, hw, ha, hr⟩
+    refine ⟨⟨⟨⟨⟨⟨⟨h8, ?_⟩, ?_⟩, hm⟩, h0⟩, hw⟩, ?_⟩, hr⟩
+    · rw [hk, Nat.log2_two_pow]
+    · rw [hk]; exact Nat.pow_lt_pow_right (by decide) hk64
+    · by_cases h : t.aux = 0
+      · exact Or.inr (ha h)
+      · exact Or.inl h
+
+theorem proof_options_constructible_iff_valid (o : ProofOptions) : o.newOk = true ↔ o.Valid := by
+  unfold ProofOptions.newOk ProofOptions.validB ProofOptions.Valid
+  simp only [Bool.and_eq_true, decide_eq_true_eq]
+  constructor
+  · rintro ⟨⟨⟨⟨⟨⟨⟨⟨⟨⟨⟨⟨⟨⟨⟨⟨⟨a1, a2⟩, a3⟩, a4⟩, a5⟩, a6⟩, a7⟩, a8⟩, a9⟩, a10⟩, a11⟩, a12⟩, a13⟩, a14⟩, a15⟩, a16, a17⟩, a18⟩, a19⟩
+    exact ⟨a1, a2, a3, a4, a5, a6, by omega, a7, a8, a9, a10, a11, a18, a19, a12, a13, a14, a15⟩
+  · rintro ⟨a1, a2, a3, a4, a5, a6, a7, a8, a9, a10, a11, a12, a13, a14, a15, a16, a17, a18⟩
+    exact ⟨⟨⟨⟨⟨⟨⟨⟨⟨⟨⟨⟨⟨⟨⟨⟨⟨a1, a2⟩, a3⟩, a4⟩, a5⟩, a6⟩, a8⟩, a9⟩, a10⟩, a11⟩, a12⟩, a15⟩, a16⟩, a17⟩, a18⟩, by omega, by omega⟩, a13⟩, a14⟩
+
+/-- every context the constructors accept (with the modulus of a real field: 1..254 bytes, not all
+zero) satisfies the hypothesis of `context_seed_binds` -/
+theorem context_constructible_valid (c : Context) (h : c.newOk = true)
+    (hm : 0 < c.modulus.length ∧ c.modulus.length < 255 ∧ c.modulus.any (· != 0) = true) : c.Valid := by
+  unfold Context.newOk at h
+  simp only [Bool.and_eq_true, decide_eq_true_eq] at h
+  obtain ⟨⟨⟨⟨⟨hi, ho⟩, hl⟩, hb⟩, hn⟩, hn2⟩ := h
+  exact ⟨(trace_info_constructible_iff_valid _).1 hi, (proof_options_constructible_iff_valid _).1 ho,
+    by omega, by omega, hn, by omega, hm.1, hm.2.1, hm.2.2⟩
+
 /-- metadata that differ only by a trailing zero byte inside the last chunk give identical seed
     elements: the listed parameter "trace metadata" is NOT bound (genuine defect, recorded) -/
 theorem metadata_not_bound_counterexample :
